@@ -2,6 +2,6 @@
 import observer
 TUS = observer.TUS
 def run(facts, rep, tier):
-    observer.emit(facts, rep, ['RE.1', 'RE.2', 'RE.4', 'SUB.2', 'SUB.6'],
-                  {'RE.1': 7, 'RE.2': 7, 'RE.4': 7, 'SUB.2': 14, 'SUB.6': 14})
+    observer.emit(facts, rep, ['RE.1', 'RE.2', 'RE.4', 'RE.5', 'SUB.2', 'SUB.6'],
+                  {'RE.1': 7, 'RE.2': 7, 'RE.4': 7, 'RE.5': 7, 'SUB.2': 14, 'SUB.6': 14})
     rep.assume('the user callback may call any public member of the same Subject (subscribe, unsubscribe, notify, mute, invalidate)')
